@@ -90,6 +90,12 @@ func addrOf(n int) string { return fmt.Sprintf("10.0.0.%d:4000", n) }
 func payloadKey(m any) (string, string) {
 	switch v := m.(type) {
 	case *hremote.TestMessage:
+		if len(v.Data) > 1<<20 {
+			// a big message: the key is what precedes the first '|'
+			if i := strings.IndexByte(string(v.Data[:64]), '|'); i >= 0 {
+				return string(v.Data[:i]), "remote.TestMessage"
+			}
+		}
 		return string(v.Data), "remote.TestMessage"
 	case *actor.PID:
 		return v.ID, "actor.PID"
@@ -109,8 +115,16 @@ func payloadKey(m any) (string, string) {
 	return fmt.Sprintf("?%T", m), fmt.Sprintf("%T", m)
 }
 
+// bigBuffer is the inbound buffer size of TLS-configured nodes; a message of
+// kind 5 is larger than drpc's 4 MB default and fits into it.
+const bigBuffer = 8 << 20
+
 func mkPayload(kind int, key string) proto.Message {
 	switch kind {
+	case 5:
+		b := make([]byte, 5<<20)
+		copy(b, key+"|")
+		return &hremote.TestMessage{Data: b}
 	case 1:
 		return &actor.PID{Address: "payload", ID: key}
 	case 2:
@@ -138,7 +152,9 @@ func (w *World) StartNode(n int, recorders []string) (*Node, error) {
 	nd := &Node{N: n, Addr: addrOf(n), Recs: map[string]*recorder{}, up: true}
 	cfg := hremote.NewConfig()
 	if w.tls {
-		cfg = cfg.WithTLS(&tls.Config{InsecureSkipVerify: true})
+		// options are applied in this order on purpose: each must keep what the
+		// one before it set
+		cfg = cfg.WithBufferSize(bigBuffer).WithTLS(&tls.Config{InsecureSkipVerify: true})
 	}
 	nd.R = hremote.New(nd.Addr, cfg)
 	e, err := actor.NewEngine(actor.NewEngineConfig().WithRemote(nd.R))
@@ -268,6 +284,9 @@ func (w *World) doSend(s sendOp) {
 	case -2:
 		payload = &actor.PID{Address: "payload", ID: "bad\xff" + s.key}
 		simrt.Fault("unserialisable-payload-invalid-utf8")
+	case -3:
+		payload = nil // an untyped nil message value
+		simrt.Fault("unserialisable-payload-nil")
 	default:
 		payload = mkPayload(s.kind, s.key)
 	}
@@ -325,6 +344,7 @@ func senderPool(from int) []*actor.PID {
 		actor.NewPID("ab", "c"),
 		actor.NewPID("a", "bc"),
 		actor.NewPID(addrOf(from), "snd/b"),
+		actor.NewPID("10.0.0.77:4000", "snd/a"), // same id as above on another node
 		actor.NewPID("local", "x/1"),
 		actor.NewPID(addrOf(from), "snd/"+strings.Repeat("deep/", 30)+"a"),
 		actor.NewPID(addrOf(from), "snd/"+strings.Repeat("deep/", 30)+"b"),
@@ -468,7 +488,7 @@ func genOps(g simrt.Gen, rc *core.RunCtx, nodes []int, targets []string, ntasks,
 			id++
 			s := sendOp{key: fmt.Sprintf("k%d", id), from: from, to: to, target: tgt, kind: g.IntN(5), sender: pool[g.IntN(len(pool))], task: t}
 			if bad && g.Bool(0.15) {
-				s.kind = -1 - g.IntN(2)
+				s.kind = -1 - g.IntN(3)
 			}
 			pk := fmt.Sprintf("%d/%s", to, tgt)
 			s.n = per[pk]
@@ -578,7 +598,7 @@ func genOpsFrom(g simrt.Gen, rc *core.RunCtx, from int, tos []int, targets []str
 			id++
 			s := sendOp{key: fmt.Sprintf("k%d", id), from: from, to: to, target: tgt, kind: g.IntN(5), sender: pool[g.IntN(len(pool))], task: t}
 			if bad && g.Bool(0.12) {
-				s.kind = -1 - g.IntN(2)
+				s.kind = -1 - g.IntN(3)
 			}
 			pk := fmt.Sprintf("%d/%s", to, tgt)
 			s.n = per[pk]
